@@ -39,5 +39,6 @@ __CPROVER_ensures((g_give_sigmas && !g_give_width) ==> (exists_bins(0) && exists
 __CPROVER_ensures((g_give_sigmas && !g_give_width && is_bins(g_wb[0], 0) && is_bins(g_wb[1], 1) && (t_v(g_wb[0]) > 0.0 || t_v(g_wb[1]) > 0.0)) ==> (N(5) == g_wb[0] || N(5) == g_wb[1]))
 __CPROVER_ensures((g_give_sigmas && !g_give_width && is_bins(g_wb[0], 0) && is_bins(g_wb[1], 1)) ==> (t_v(N(5)) >= t_v(g_wb[0]) || t_v(N(5)) >= t_v(g_wb[1])))
 __CPROVER_ensures((g_give_sigmas && !g_give_width && is_bins(g_wb[0], 0) && is_bins(g_wb[1], 1) && t_v(g_wb[0]) > 0.0 && t_v(g_wb[1]) > t_v(g_wb[0])) ==> N(5) == g_wb[1])
+__CPROVER_ensures((g_give_sigmas && !g_give_width && is_bins(g_wb[0], 0) && is_bins(g_wb[1], 1) && t_v(g_wb[0]) > 0.0 && !(t_v(g_wb[1]) > t_v(g_wb[0]))) ==> N(5) == g_wb[0])
 ;
 #endif
